@@ -74,6 +74,11 @@ structure Broker where
 
 def Broker.zero : Broker := ⟨0, "", 0, ""⟩
 
+/-- network address of a broker: what `newBrokerConnGroup` joins into the group's host:port -/
+abbrev Addr := String × Int
+
+def Broker.addr (b : Broker) : Addr := (b.host, b.port)
+
 structure Partition where
   id : Int
   error : Int
@@ -149,7 +154,7 @@ inductive RouteErr where
   deriving DecidableEq, Repr, Inhabited
 
 inductive Target where
-  | broker (id : Int)   -- a connection of the group of broker `id`
+  | broker (id : Int) (addr : Addr)   -- a connection of the group of broker `id`, dialled at the group's address
   | control             -- the pool's control connection (the address the caller gave)
   | err (e : RouteErr)
   deriving DecidableEq, Repr, Inhabited
@@ -180,14 +185,17 @@ def leaderAll (c : Cluster) : List (String × List Int) → Int → Except Route
       | .ok cur' => leaderAll c rest cur'
 
 /-- listoffsets.Request.Broker: only `Topics[0].Partitions[0]` is looked at (index panics are explicit);
-an unknown topic/partition gives −1, an unknown leader id reads the zero broker (id 0). -/
+an unknown topic / partition / leader gives −1 (the control connection: any broker answers with the error code). -/
 def leaderFirst (c : Cluster) (tps : List (String × List Int)) : Except RouteErr Int :=
   match tps with
   | [] => .error .panic
   | (_, []) :: _ => .error .panic
   | (tn, p :: _) :: _ =>
     match ((lookupD c.topics tn Topic.zero).partitions.find? (fun e => e.2.id == p)) with
-    | some e => .ok (lookupD c.brokers e.2.leader Broker.zero).id
+    | some e =>
+      match c.brokers.lookup e.2.leader with
+      | some b => .ok b.id
+      | none => .ok (-1)
     | none => .ok (-1)
 
 /-- `return cluster.Brokers[cluster.Controller], nil` -/
@@ -239,12 +247,14 @@ def classOf (cases : List SwitchCase) (a : ApiMethods) : Option RClass :=
 
 /-- tail of sendRequest: `brokerID >= 0` → grabBrokerConn (BrokerNotAvailable if the pool has no
 connection group for it), else the control connection -/
-def sendTarget (conns : List Int) (brokerID : Int) : Target :=
+def sendTarget (conns : List (Int × Addr)) (brokerID : Int) : Target :=
   if brokerID ≥ 0 then
-    if conns.contains brokerID then .broker brokerID else .err .brokerNotAvailable
+    match conns.lookup brokerID with
+    | some addr => .broker brokerID addr
+    | none => .err .brokerNotAvailable
   else .control
 
-def ofExcept (conns : List Int) : Except RouteErr Int → Target
+def ofExcept (conns : List (Int × Addr)) : Except RouteErr Int → Target
   | .ok id => sendTarget conns id
   | .error e => .err e
 
@@ -270,7 +280,7 @@ def brokerMethod (a : ApiMethods) (c : Cluster) (r : ReqInfo) : Except RouteErr 
   | _ => .error .panic
 
 /-- (*connPool).sendRequest for one (already split) request -/
-def route (cases : List SwitchCase) (a : ApiMethods) (c : Cluster) (conns : List Int) (r : ReqInfo) : Target :=
+def route (cases : List SwitchCase) (a : ApiMethods) (c : Cluster) (conns : List (Int × Addr)) (r : ReqInfo) : Target :=
   match firstCase cases a with
   | some .broker => ofExcept conns (brokerMethod a c r)
   | some .group => sendTarget conns r.coordinator
@@ -329,17 +339,19 @@ def filterMetadata (names : Option (List String)) (res : MResponse) : MResponse 
         | some j => res.topics.getD j (unknownTopic n)
         | none => unknownTopic n) }
 
-/-- the pool's cached state and connection groups -/
+/-- the pool's cached state and connection groups (`p.conns`: broker id → group; a group is its dial address,
+fixed when the group is created by `newBrokerConnGroup`) -/
 structure PoolState where
   metadata : Option MResponse := none
   layout : Cluster := Cluster.zero
   err : Bool := false
-  conns : List Int := []
+  conns : List (Int × Addr) := []
   deriving Repr, Inhabited
 
 def keys {κ ν : Type} (m : List (κ × ν)) : List κ := m.map (·.1)
 
-/-- (*connPool).update(metadata, err) -/
+/-- (*connPool).update(metadata, err): a broker whose entry (id, host, port, rack) differs from the cached one in
+any field has its group closed and re-created at the new address (`b1 != b2` on the whole struct) -/
 def update (s : PoolState) (m : Option MResponse) (err : Bool) : PoolState :=
   let m' := m.map normalize
   let layout := match m' with | some x => makeLayout x | none => Cluster.zero
@@ -356,6 +368,7 @@ def update (s : PoolState) (m : Option MResponse) (err : Bool) : PoolState :=
       | some b1 => some b1 != layout.brokers.lookup id)) ++
       ((keys s.layout.brokers).filter (fun id => (layout.brokers.lookup id).isNone))
     { metadata := m', layout := layout, err := false,
-      conns := (s.conns.filter (fun id => !del.contains id)) ++ add }
+      conns := (s.conns.filter (fun e => !del.contains e.1)) ++
+        add.map (fun id => (id, (lookupD layout.brokers id Broker.zero).addr)) }
 
 end KV.Routing
